@@ -131,6 +131,10 @@ def ttm_scalar(E, s):
             a = s['ival']
         elif s['skind'] == 'pyfloat':
             a = float(s['fval'])          # a concrete python float (a double that float32 cannot represent)
+        elif s['skind'] == 'tensor_concrete':
+            # a one-element torch tensor of another dtype (integer / single precision) with a concrete value: the result must be the quotient /
+            # product computed in the operand's precision, as the dense expression does
+            a = E.tn.tensor(s['tval'], dtype=E.dt(s['tdtype']))
         elif s['skind'] == 'npscalar':
             import numpy as _rnp
             a = getattr(_rnp, s['nptype'])(complex(*s['cval']) if isinstance(s['cval'], list) else s['cval'])       # a concrete numpy scalar
